@@ -8,7 +8,7 @@ For each property:
 """
 import json
 
-from .. import matchpipe, render, tlc
+from .. import gen, matchpipe, render, tlc
 from ..common import Report, load_known_findings, MachineryError, REPO, seed
 
 FF = [(False, False)]
@@ -64,11 +64,11 @@ def run_part(report, prop, key, u, opts, tier):
                 for rng in ranges:
                     extra = {"valid_addr_range": {"min": rng[0], "max": rng[1]}} if rng else None
                     doc = render.rule_doc(P, mfm, ofm, opt=sp, config_extra=extra)
-                    key = "upper" if sp.get("upper_suffix") else "sib" if sp.get("times") == "sib" else "ints" if sp.get("ints") else "body"
-                    if doc["pattern"] != tlc_docs[pi][key]:
+                    skey = "upper" if sp.get("upper_suffix") else "sib" if sp.get("times") == "sib" else "ints" if sp.get("ints") else "body"
+                    if doc["pattern"] != tlc_docs[pi][skey]:
                         raise MachineryError(f"render.py and JasmSyntax!Unparse disagree on {P}: "
-                                             f"{doc['pattern']} vs {tlc_docs[pi][key]}")
-                    doc["pattern"] = tlc_docs[pi][key]       # the document the real code reads is TLC's
+                                             f"{doc['pattern']} vs {tlc_docs[pi][skey]}")
+                    doc["pattern"] = tlc_docs[pi][skey]       # the document the real code reads is TLC's
                     text = render.dump_yaml(doc)
                     if (pi, text) in seen_docs:
                         continue
@@ -106,6 +106,9 @@ def run_part(report, prop, key, u, opts, tier):
     else:
         cases = [matchpipe.case_of(o, rules[o["r"]][0] + 1, o["l"] + 1, rules[o["r"]][1], rules[o["r"]][2],
                                    rules[o["r"]][4]) for o in obs]
+        if opts.get("rand"):
+            for c in cases:
+                c["rand"] = True
         verdicts = matchpipe.validate(pats, lsts, cases, report, f"{prop}{key or ''}")
     report.cov["evaluations"] += len(cases)
     report.cov["traces_validated_against_impl"] += len(cases)
@@ -118,7 +121,8 @@ def run_part(report, prop, key, u, opts, tier):
     report.cov["distinct_nontrivial"] += nt
     part_stats = {"part": key or "main", "patterns": len(pats), "listings": len(lsts), "rules": len(rules),
                   "cases": len(cases), "expected_found": sum(v == "ok:F" for v in verdicts),
-                  "rejected": sum(v.startswith("rej") for v in verdicts)}
+                  "rejected": sum(v.startswith("rej") for v in verdicts),
+                  "skipped_out_of_scope": sum(v.startswith("skip") for v in verdicts)}
     report.cov.setdefault("parts", []).append(part_stats)
     # samples
     for c, v, o in list(zip(cases, verdicts, obs))[:: max(1, len(cases) // 3)][:3]:
@@ -201,6 +205,11 @@ def run(prop, tier):
     for key, opts in plan["parts"]:
         u = U if key is None else U[key]
         run_part(report, prop, key, u, opts, tier)
+    if prop in gen.FEATURES:
+        # code -> spec: seeded random patterns / listings, larger and deeper than the exhaustive universes
+        n_p, n_l = (150, 40) if tier == "quick" else (2500, 200)
+        u = gen.universe(prop, seed() * 9973 + 11, n_p, n_l)
+        run_part(report, prop, "rand", u, dict(flags=FF, rand=True), tier)
     if prop == "C18":
         c18_real_objdump(report, tier)
     run_witnesses(report, prop)
@@ -238,7 +247,8 @@ def c18_real_objdump(report, tier):
     report.cov.setdefault("parts", []).append({"part": "real objdump chunks x ranges", "cases": len(cases),
                                                "tagged": sum(v == "ok:tagged" for v in verdicts),
                                                "skipped": sum(v.startswith("skip") for v in verdicts),
-                                               "rejected": sum(v.startswith("rej") for v in verdicts)})
+                                               "rejected": sum(v.startswith("rej") for v in verdicts),
+                  "skipped_out_of_scope": sum(v.startswith("skip") for v in verdicts)})
 
 
 def replay(prop, path):
